@@ -518,7 +518,7 @@ var (
 // addService registers a new service with the specified lifetime and options.
 // It performs validation, creates descriptors, handles multi-return constructors,
 // and manages interface registrations when using the As option.
-func (r *collection) addService(service any, lifetime Lifetime, opts ...AddOption) error {
+func (r *collection) addService(service any, lifetime Lifetime, opts ...AddOption) (err error) {
 	// Validate inputs
 	if service == nil {
 		return &ValidationError{
@@ -584,6 +584,14 @@ func (r *collection) addService(service any, lifetime Lifetime, opts ...AddOptio
 			Cause:       err,
 		}
 	}
+
+	// A registration that expands to several descriptors is all-or-nothing
+	registered := len(r.allDescriptors)
+	defer func() {
+		if err != nil {
+			r.rollbackTo(registered)
+		}
+	}()
 
 	// Handle result objects (Out structs)
 	// For result objects, we only register each field as a separate service
@@ -771,6 +779,30 @@ func (r *collection) registerDescriptor(descriptor *Descriptor) error {
 	r.allDescriptors = append(r.allDescriptors, descriptor)
 
 	return nil
+}
+
+// rollbackTo undoes every registerDescriptor call made since allDescriptors had
+// n entries, so that a rejected registration leaves the collection as it was.
+func (r *collection) rollbackTo(n int) {
+	for i := len(r.allDescriptors) - 1; i >= n; i-- {
+		d := r.allDescriptors[i]
+		key := TypeKey{Type: d.Type, Key: d.Key}
+		if r.services[key] == d {
+			delete(r.services, key)
+			continue
+		}
+
+		groupKey := GroupKey{Type: d.Type, Group: d.Group}
+		if members := r.groups[groupKey]; len(members) > 0 && members[len(members)-1] == d {
+			if len(members) == 1 {
+				delete(r.groups, groupKey)
+			} else {
+				r.groups[groupKey] = members[:len(members)-1]
+			}
+		}
+	}
+
+	r.allDescriptors = r.allDescriptors[:n]
 }
 
 // validateLifetimes ensures singleton and transient services don't depend on scoped services.
